@@ -479,15 +479,15 @@ Proof.
       rewrite in_sem_scalar_null by (destruct vs; [discriminate|discriminate]).
       destruct neg; done_val.
     + rewrite (in_sem_scalar (SInt z) vs) by discriminate. change (VInt z) with (of_sv (SInt z)). rewrite py_in_of_sv.
-      cbn [in_safe] in Hgo. destruct (existsb (sv_eqb (SInt z)) vs); cbn [orb] in Hgo.
-      * destruct neg; eexists; (split; [reflexivity|]); split; try exact I; [apply (rel_bool false)|apply (rel_bool true)].
-      * apply negb_true_iff in Hgo. rewrite Hgo.
-        destruct neg; eexists; (split; [reflexivity|]); split; try exact I; [apply (rel_bool true)|apply (rel_bool false)].
+      fold (has_null vs).
+      destruct (existsb (sv_eqb (SInt z)) vs); [|destruct (has_null vs)];
+        destruct neg; eexists; (split; [reflexivity|]); split; try exact I;
+        try apply (rel_bool false); try apply (rel_bool true); constructor.
     + rewrite (in_sem_scalar (SText s) vs) by discriminate. change (VStr s) with (of_sv (SText s)). rewrite py_in_of_sv.
-      cbn [in_safe] in Hgo. destruct (existsb (sv_eqb (SText s)) vs); cbn [orb] in Hgo.
-      * destruct neg; eexists; (split; [reflexivity|]); split; try exact I; [apply (rel_bool false)|apply (rel_bool true)].
-      * apply negb_true_iff in Hgo. rewrite Hgo.
-        destruct neg; eexists; (split; [reflexivity|]); split; try exact I; [apply (rel_bool true)|apply (rel_bool false)].
+      fold (has_null vs).
+      destruct (existsb (sv_eqb (SText s)) vs); [|destruct (has_null vs)];
+        destruct neg; eexists; (split; [reflexivity|]); split; try exact I;
+        try apply (rel_bool false); try apply (rel_bool true); constructor.
   - (* EAnd *)
     intros es IH t Hw Hc Hg. cbn [wt'] in Hw.
     destruct ((fix all (l : list ex) : bool := match l with [] => true | x :: r0 => match wt' sc x with Some TyBool => all r0 | _ => false end end) es) eqn:E; [|discriminate].
